@@ -9,7 +9,11 @@ Slices
      reported valid.
   C  the Gallina denter (coq/Front/Denter.v) against the real PFDLLexer on the same texts.
   D  the Gallina front end (coq/Front/Parser.v) against parse_string on the same texts.
-C and D run when the corresponding .vo files exist."""
+  E  the statement of the round trip evaluated for the implementation's own models.
+  F  the Gallina character-level lexer (coq/Front/CharLexer.v) against the real ANTLR lexer
+     (harness/front_chars.py): rendered texts in all layouts, illegal-character insertions,
+     character- and token-level mutations, short random strings over a mixed alphabet.
+C to F run when the corresponding .vo files exist."""
 import hashlib
 import os
 import random
@@ -684,6 +688,11 @@ def front_slice(pid, cfg, tier, seed, workdir, rep, stats, findings):
     if have_vo("Render") and t.get("coq_render"):
         cases = coq_cases(seed + 2, pid, t["coq_render"], ["plain"])
         slice_render(pid, cases, workdir, rep, stats)
+    import front_chars
+    if front_chars.have_vo():
+        front_chars.slice_chars(pid, t, seed, layout_names, workdir, rep, stats)
+    else:
+        rep.notes.append("coq/Front/CharLexer.vo not built: Gallina character-level lexer not compared")
     stats["wall_coq_s"] = int(time.time() - t1)
     stats["_distinct"] = distinct
     return samples[:3]
@@ -735,6 +744,9 @@ def replay_front(pid, cfg, payload, workdir):
         slice_frontend(pid, [dict(text=payload["text"], lines=payload["lines"], fnl=payload["final_newline"])],
                        workdir, rr, Counter())
         return {"fails": bool(rr.v), "why": str(rr.v[:1])[:500]}
+    if sub == "chars":
+        import front_chars
+        return front_chars.replay(pid, payload, workdir)
     return {"fails": True, "why": "unknown front case " + repr(sub)}
 
 
